@@ -234,6 +234,8 @@ SPECIES = [
 BEAM_BASIS = rotate_basis(Vector3D(1, 0, 0), Vector3D(0, 0, 1))
 
 VALUES = {
+    # ---- scene graph: the intermediate node some objects may be parented to
+    "a_transform": [lambda: translate(0, 0.02, 0.01), lambda: translate(0.01, 0.03, 0.0), lambda: rotate_z(3) * translate(0, 0.02, 0.01)],
     # ---- plasma
     "p_transform": [lambda: translate(0, 0, 0), lambda: translate(0.03, -0.02, 0.01), lambda: rotate_z(7) * translate(0.01, 0, 0)],
     "p_parent": ["world", "nodeA"],
@@ -304,7 +306,7 @@ class Scene:
         self.cfg = dict(config)
         c = self.cfg
         self.world = World()
-        self.nodeA = Node(parent=self.world, transform=translate(0, 0.02, 0.01))
+        self.nodeA = Node(parent=self.world, transform=_val("a_transform", c["a_transform"]))
         # pools of reusable objects (a user would create them once and re-attach them)
         self.species = [self._make_species(i) for i in range(len(SPECIES))]
         self.pmodels = [ExcitationLine(Line(deuterium, 0, (3, 2))), RecombinationLine(Line(deuterium, 0, (3, 2))),
@@ -428,7 +430,9 @@ class Scene:
         assert kind == "set"
         f, v = op[1], op[2]
         c[f] = v
-        if f == "p_transform":
+        if f == "a_transform":
+            self.nodeA.transform = _val(f, v)
+        elif f == "p_transform":
             p.transform = _val(f, v)
         elif f == "p_parent":
             p.parent = self._parent(VALUES[f][v])
